@@ -10,6 +10,10 @@
 ;; also:  (id reps (from to) ...) -> id X <shape of (sre-expand-reps from to '(seq ($ x)))>
 ;; also:  (id range sre (str start end) ...) -> like R, calling (regexp-matches rx str start end) / (regexp-search rx str start end)
 ;; also:  (id fold sre str ...) -> id G F<spans kons saw>;E<regexp-extract>;S<regexp-split>;P<regexp-partition>;R<regexp-replace with "-">;A<regexp-replace-all with "-">
+;; also:  (id graph sre (cp ...)) -> id Y <start> <num-save-indexes> <non-greedy-indexes or _> | id:kind:match:rule:next1:next2 ...
+;;          the compiled state graph reached from rx-start-state (raw state-ids); kind A accept, E epsilon, G<anchor>, C<0/1 per cp>
+;; also:  (id trace search? sre str) -> id Z i;accept;id=vec id=vec ... | ... # result    searchers1 and the accept at every
+;;          iteration of regexp-advance! (seen through a wrapper around the internal posse-for-each) and when it returns
 ;; also:  (id chars cp ...)  ->  id K cp:fold:up:down:word ...   (char-level functions, hex)
 (import (scheme base) (scheme write) (scheme read) (scheme char) (scheme file)
         (scheme process-context) (scheme eval) (only (meta) find-module module-env)
@@ -19,6 +23,139 @@
 (define regexp-env (module-env (find-module '(chibi regexp))))
 (define (internal name)
   (guard (e (#t #f)) (eval name regexp-env)))
+
+;; ---- engine level: the state graph and the posse after every character -------------------------------------------
+(define trace-sink #f)         ; a procedure taking the posse while a trace is being recorded
+(define engine-ready
+  (guard (e (#t #f))
+    (eval '(define %c20-old-posse-for-each posse-for-each) regexp-env)
+    (eval '(define %c20-hook (lambda (p) #f)) regexp-env)
+    ((eval '(lambda (h) (set! %c20-hook h)) regexp-env) (lambda (p) (if trace-sink (trace-sink p))))
+    (eval '(set! posse-for-each (lambda (proc posse) (%c20-hook posse) (%c20-old-posse-for-each proc posse))) regexp-env)
+    #t))
+(define i-state-id (internal 'state-id))
+(define i-state-accept? (internal 'state-accept?))
+(define i-state-chars (internal 'state-chars))
+(define i-state-match (internal 'state-match))
+(define i-state-match-rule (internal 'state-match-rule))
+(define i-state-next1 (internal 'state-next1))
+(define i-state-next2 (internal 'state-next2))
+(define i-state-matches? (internal 'state-matches?))
+(define i-rx-start-state (internal 'rx-start-state))
+(define i-rx-num-save-indexes (internal 'rx-num-save-indexes))
+(define i-rx-non-greedy-indexes (internal 'rx-non-greedy-indexes))
+(define i-regexp-advance! (internal 'regexp-advance!))
+(define i-make-regexp-state (internal 'make-regexp-state))
+(define i-regexp-state-accept (internal 'regexp-state-accept))
+(define i-regexp-state-searchers (internal 'regexp-state-searchers))
+(define i-searcher-state (internal 'searcher-state))
+(define i-searcher-matches (internal 'searcher-matches))
+(define i-regexp-match-matches (internal 'regexp-match-matches))
+(define i-posse->list (internal 'posse->list))
+(define anchor-procs
+  (map (lambda (n) (cons (internal (string->symbol (string-append "match/" n))) n))
+       '("bos" "eos" "bol" "eol" "bow" "eow" "nwb")))
+
+(define (num-or-x v) (if v (number->string v) "x"))
+
+(define (dump-graph rx cps)
+  (let ((seen '()) (out '()))
+    (let walk ((st (i-rx-start-state rx)))
+      (if (and st (not (memq st seen)))
+          (begin
+            (set! seen (cons st seen))
+            (set! out
+              (cons
+               (string-append
+                (number->string (i-state-id st)) ":"
+                (let ((c (i-state-chars st)))
+                  (cond
+                   ((i-state-accept? st) "A")
+                   ((not c) "E")
+                   ((procedure? c)
+                    (let ((a (assq c anchor-procs))) (if a (string-append "G" (cdr a)) "G?")))
+                   (else
+                    (string-append
+                     "C" (list->string
+                          (map (lambda (cp) (if (i-state-matches? st #f #f (integer->char cp) #f #f #f) #\1 #\0)) cps))))))
+                ":" (let ((m (i-state-match st))) (if (pair? m) "L" (num-or-x m)))
+                ":" (case (i-state-match-rule st)
+                      ((#f) "n") ((left) "l") ((right) "r") ((non-greedy-left) "g") (else "?"))
+                ":" (let ((n (i-state-next1 st))) (if n (number->string (i-state-id n)) "x"))
+                ":" (let ((n (i-state-next2 st))) (if n (number->string (i-state-id n)) "x")))
+               out))
+            (walk (i-state-next1 st))
+            (walk (i-state-next2 st)))))
+    (write-string (number->string (i-state-id (i-rx-start-state rx))))
+    (write-string " ")
+    (write-string (number->string (i-rx-num-save-indexes rx)))
+    (write-string " ")
+    (let ((ng (i-rx-non-greedy-indexes rx)))
+      (if (null? ng)
+          (write-string "_")
+          (let lp ((ng ng) (first #t))
+            (if (pair? ng)
+                (begin (if (not first) (write-string ","))
+                       (write-string (number->string (car ng)))
+                       (lp (cdr ng) #f))))))
+    (write-string " |")
+    (for-each (lambda (x) (write-string " ") (write-string x)) (reverse out))))
+
+(define (vec-string md str)
+  (let* ((v (i-regexp-match-matches md)) (n (vector-length v)) (o (open-output-string)))
+    (if (= n 0) (write-string "_" o))
+    (let lp ((k 0))
+      (if (< k n)
+          (let ((x (vector-ref v k)))
+            (if (> k 0) (write-char #\, o))
+            (write-string (cond ((not x) "x")
+                                ((string-cursor? x) (number->string (string-cursor->index str x)))
+                                (else "?")) o)
+            (lp (+ k 1)))))
+    (get-output-string o)))
+
+(define (snapshot count posse accept str)
+  (let ((o (open-output-string)))
+    (write-string (number->string count) o)
+    (write-string ";" o)
+    (write-string (if accept (vec-string (i-searcher-matches accept) str) "-") o)
+    (write-string ";" o)
+    (let lp ((ls (i-posse->list posse)) (first #t))
+      (if (pair? ls)
+          (begin
+            (if (not first) (write-string " " o))
+            (write-string (number->string (i-state-id (i-searcher-state (car ls)))) o)
+            (write-string "=" o)
+            (write-string (vec-string (i-searcher-matches (car ls)) str) o)
+            (lp (cdr ls) #f))))
+    (get-output-string o)))
+
+(define (dump-trace search? rx str)
+  (let* ((state (i-make-regexp-state)) (count 0) (snaps '())
+         (start (string-cursor-start str)) (end (string-cursor-end str)))
+    (set! trace-sink
+          (lambda (posse)
+            (set! snaps (cons (snapshot count posse (i-regexp-state-accept state) str) snaps))
+            (set! count (+ count 1))))
+    (guard (e (#t (set! trace-sink #f) (raise e)))
+      (i-regexp-advance! search? #t rx str start end state))
+    (set! trace-sink #f)
+    (set! snaps (cons (snapshot count (i-regexp-state-searchers state) (i-regexp-state-accept state) str) snaps))
+    (let lp ((ls (reverse snaps)) (first #t))
+      (if (pair? ls)
+          (begin (if (not first) (write-string " | "))
+                 (write-string (car ls))
+                 (lp (cdr ls) #f))))
+    (write-string " # ")
+    (let ((acc (i-regexp-state-accept state)))
+      (write-string
+       (if (and acc
+                (let ((m (i-searcher-matches acc)))
+                  (or search?
+                      (let ((e (vector-ref (i-regexp-match-matches m) 1)))
+                        (and e (string-cursor>=? e end))))))
+           (vec-string (i-searcher-matches acc) str)
+           "-")))))
 
 (define (msg-of e)
   (let ((o (open-output-string)))
@@ -105,6 +242,32 @@
            (write-string (hex (char->integer (char-downcase ch)))) (write-string ":")
            (write-string (if (char-set-contains? char-set:word ch) "1" "0"))))
        (cddr c)))
+     ((eq? (cadr c) 'graph)
+      (if (not (and engine-ready i-state-id i-rx-start-state i-state-matches? i-rx-non-greedy-indexes))
+          (write-string " ERRI internal-state-accessors-not-found")
+          (let ((rx (guard (e (#t (cons 'err (msg-of e)))) (regexp (car (cddr c))))))
+            (cond
+             ((pair? rx) (write-string " ERR ") (write-string (cdr rx)))
+             (else
+              (write-string " Y ")
+              (write-string
+               (guard (e (#t (string-append "!" (msg-of e))))
+                 (let ((o (open-output-string)))
+                   (parameterize ((current-output-port o)) (dump-graph rx (cadr (cddr c))))
+                   (get-output-string o)))))))))
+     ((eq? (cadr c) 'trace)
+      (if (not (and engine-ready i-regexp-advance! i-make-regexp-state i-posse->list i-regexp-state-searchers))
+          (write-string " ERRI internal-engine-procedures-not-found")
+          (let ((rx (guard (e (#t (cons 'err (msg-of e)))) (regexp (cadr (cddr c))))))
+            (cond
+             ((pair? rx) (write-string " ERR ") (write-string (cdr rx)))
+             (else
+              (write-string " Z ")
+              (write-string
+               (guard (e (#t (string-append "!" (msg-of e))))
+                 (let ((o (open-output-string)))
+                   (parameterize ((current-output-port o)) (dump-trace (car (cddr c)) rx (car (cddr (cddr c)))))
+                   (get-output-string o)))))))))
      ((eq? (cadr c) 'anchors)
       ;; (id anchors str ...) -> id A <res> ...   res = for every position 0..len the 7 results of
       ;; match/bos eos bol eol bow eow nwb as 0/1, positions separated by ","
